@@ -203,6 +203,11 @@ func (m *Message) pack() ([]byte, error) {
 			continue
 		}
 		m.bitmap().Set(id)
+
+		// a bitmap that does not auto expand ignores bits it has no room for
+		if !m.bitmap().IsSet(id) {
+			return nil, fmt.Errorf("failed to pack field %d: bitmap of %d bits can not represent it", id, m.bitmap().Len())
+		}
 	}
 
 	// pack fields
